@@ -464,6 +464,12 @@ def damage(rng, doc, kind):
         if not l:
             return None
         k = rng.choice(["zzz_unknown", "zzz_unknown", "Root", "key", "_that", "zzz.dotted", ""])
+        if rng.random() < 0.4:
+            # names that merely contain a reserved word are not reserved
+            w = rng.choice(RESERVED_SAMPLE)
+            k = rng.choice([w + "_cause", w + "s", w + "2", "my_" + w, "x" + w, w.capitalize() if w.capitalize() != w else w.lower(), w + " "])
+            if k in RESERVED_SAMPLE:
+                return None
         if k in l[3]:
             return None
         l[3][k] = copy.deepcopy(rng.choice(REPLACEMENTS))
@@ -660,6 +666,56 @@ def alias_collision_cases(repo_root):
                 d.setdefault("checkpoints", []).append(cp)
                 cases.append({"doc": d, "kind": "alias_collision:" + what, "base": name,
                               "path": "checkpoints[+] alias=" + a, "inert": False})
+    return cases
+
+
+def twin_cases(repo_root):
+    """Damage whose detection depends on VALUES, placed after (and before) a conformant sibling with exactly the same
+    set of property names: gate_type vs number of dependencies, object_type vs attribute type.  Whatever is remembered
+    about the sibling must not decide the damaged one."""
+    cases = []
+    for name, doc in base_documents(repo_root):
+        cps = doc.get("checkpoints")
+        if not isinstance(cps, list):
+            continue
+        c1 = next((c for c in cps if isinstance(c, dict) and isinstance(c.get("dependencies"), list) and len(c["dependencies"]) == 1
+                   and "gate_type" not in c and "compare" in c["dependencies"][0]), None)
+        c2 = next((c for c in cps if isinstance(c, dict) and isinstance(c.get("dependencies"), list) and len(c["dependencies"]) >= 2
+                   and "gate_type" in c), None)
+        ids = [c.get("id") for c in cps if isinstance(c, dict) and isinstance(c.get("id"), int)]
+        fresh = max(ids + [0]) + 1
+        variants = []
+        if c1 is not None and c2 is not None:
+            bx = dict(c1, id=fresh, alias="twin without gate", dependencies=copy.deepcopy(c2["dependencies"]))
+            by = dict(c2, id=fresh, alias="twin with gate", dependencies=copy.deepcopy(c1["dependencies"]))
+            variants += [("two dependencies without gate_type, same keys as a conformant single-dependency checkpoint", bx),
+                         ("gate_type with one dependency, same keys as a conformant gated checkpoint", by)]
+        for what, b in variants:
+            for pos in ("after", "before"):
+                d = copy.deepcopy(doc)
+                # keep the twin referenced (nested under the gated sibling), so that nothing else is wrong with it
+                host = next(c for c in d["checkpoints"] if c.get("id") == c2.get("id"))
+                host["dependencies"].append({"checkpoint": "checkpoint:%d" % fresh})
+                if pos == "after":
+                    d["checkpoints"].append(copy.deepcopy(b))
+                else:
+                    d["checkpoints"].insert(0, copy.deepcopy(b))
+                cases.append({"doc": d, "kind": "twin:checkpoint", "base": name, "path": "checkpoints[%s] %s" % (pos, what), "inert": False})
+        for ti, t in enumerate(doc.get("object_types") or []):
+            attrs = t.get("attributes") if isinstance(t, dict) else None
+            if not isinstance(attrs, list):
+                continue
+            plain = next((a for a in attrs if isinstance(a, dict) and a.get("type") in ("STRING", "NUMERIC", "BOOLEAN") and "object_type" not in a), None)
+            if plain is None:
+                continue
+            for pos in ("after", "before"):
+                d = copy.deepcopy(doc)
+                b = dict(copy.deepcopy(plain), name="twin edge", type="EDGE")
+                lst = d["object_types"][ti]["attributes"]
+                lst.append(b) if pos == "after" else lst.insert(0, b)
+                cases.append({"doc": d, "kind": "twin:attribute", "base": name,
+                              "path": "object_types[%d].attributes[%s] EDGE without object_type, same keys as a conformant plain attribute" % (ti, pos), "inert": False})
+            break
     return cases
 
 
